@@ -114,9 +114,10 @@ PROPS = {
         "one evaluation = one seeded world (router, algorithm, token types, capabilities, user-code configuration incl. degenerate ones) x the complete catalogue: ~3150 server requests (42 token payloads x 2 overlays x 12 token sinks, broken token shapes, "
         "10 malformed Basic headers x 10 grant types x 4 endpoints, 10 malformed bodies, 14 routes x 7 methods x 10 queries, 150 seeded mutations), ~1730 faulty-peer answers to 18 client helpers, ~1750 decoder/verifier inputs. "
         "distinct non-trivial = distinct (router, case) executed plus distinct world configurations",
-        {"runs": 2, "wall": 120}, {"runs": 200, "wall": 1500},
-        {"quick": {"_runs": 32, "server-cases": 90000, "client-cases": 50000, "decoder-cases": 50000, "server-error-answers": 50000, "client-errors-returned": 30000, "keyset-child-cases": 2000},
-         "thorough": {"_runs": 2000}},
+        {"runs": 6, "wall": 120}, {"runs": 600, "wall": 1500},
+        {"quick": {"_runs": 96, "server-cases": 60000, "client-cases": 30000, "decoder-cases": 30000, "server-error-answers": 30000, "client-errors-returned": 20000, "keyset-child-cases": 1500,
+                   "fault-sweep-worlds": 60, "fault-sweep-cases": 500},
+         "thorough": {"_runs": 6000, "fault-sweep-cases": 100000}},
         "Fault enumeration over a stated catalogue (complete per world) plus seeded mutation: no handler, helper, verifier or decoder may panic; a recorder counts response headers and the storage journal shows whether a handler went on after answering with an error.",
         "DESIGN.md section 4 C09", level="fault_enumeration",
         level_note="Trusted: the catalogue is the input space (it is large but not all inputs); simnet instead of net/http server, so connection-level behaviour is out of scope."),
